@@ -55,8 +55,23 @@ def ensure_gosum():
             f.write("\n".join(missing) + "\n")
 
 
+def alt_modfile(work):
+    """VERIF_REPO=<dir> (development only): build against another checkout of
+    mellium/xmpp (a scratch worktree with a candidate fix or a seeded mutant)
+    instead of /repo, without touching /repo or the harness go.mod."""
+    repo = os.environ.get("VERIF_REPO")
+    if not repo:
+        return []
+    mod = open(os.path.join(HARNESS, "go.mod")).read().replace("=> /repo", "=> " + os.path.abspath(repo))
+    mf = os.path.join(work, "alt.mod")
+    with open(mf, "w") as f:
+        f.write(mod)
+    shutil.copy(os.path.join(HARNESS, "go.sum"), os.path.join(work, "alt.sum"))
+    return ["-modfile=" + mf]
+
+
 def build(pkg, out, race=False):
-    cmd = ["go", "test", "-c", "-tags", BUILD_TAGS, "-vet=off", "-o", out]
+    cmd = ["go", "test", "-c", "-tags", BUILD_TAGS, "-vet=off", "-o", out] + alt_modfile(os.path.dirname(out))
     if race:
         cmd.append("-race")
     cmd.append("./" + pkg)
